@@ -117,6 +117,18 @@ pub fn gen_c09(tier: Tier, seed: u64) -> Case {
     let variant = g.r.below(2) as u8;
     let class = format!("{}v{}{}", if g.cfg.manual_persist { "manual-" } else { "" }, variant, if g.cfg.rotation_threshold > 0 { "+jrot" } else { "" });
     let vseed = g.r.next();
+    // last sentence of C09: with manual journal persist (database and every keyspace),
+    // persist(Buffer) - or anything stronger - is what makes earlier writes survive a PROCESS
+    // crash. Same programs, process-crash states instead of power-loss states.
+    if g.r.chance(1, 4) {
+        g.cfg.manual_persist = true;
+        for o in &mut g.cfg.opts {
+            o.manual_persist = true;
+        }
+        let torn = g.r.chance(1, 2);
+        let class = format!("manual-crash{}", if torn { "-torn" } else { "" });
+        return mk_case("C09", seed, &g, program, Fault::Crash { points: None, torn, nested: false }, class);
+    }
     mk_case("C09", seed, &g, program, Fault::Power { points: None, variant, vseed }, class)
 }
 
@@ -324,7 +336,30 @@ impl SnapCheck<'_> {
                 }
             }
         }
-        // recovery must leave a healthy database: reopen once more, same content
+        // recovery must leave a healthy database: (a) life goes on - write, close, reopen
+        if self.seen.len() % 4 == 2 && !self.cfg.manual_persist && self.cfg.opts.iter().all(|o| !o.manual_persist) && self.cfg.filtered.is_empty() {
+            let salt = self.seen.len() as u64;
+            let r = std::panic::catch_unwind(std::panic::AssertUnwindSafe(|| {
+                let expect = faults::write_after_recovery(&s.dir, self.cfg, &real, salt)?;
+                let got = faults::read_dir_state(&s.dir, self.cfg)?;
+                Ok::<_, String>((expect, got))
+            }));
+            match r {
+                Ok(Ok((expect, got))) if expect == got => {
+                    self.stats.inc("states_continued_after_recovery");
+                }
+                Ok(Ok((expect, got))) => {
+                    return Err(Violation::new(clause, format!("{}: writes acknowledged after the recovery are not recovered by the next open: it shows {} instead of {}", s.desc, faults::brief_maps(&got), faults::brief_maps(&expect))));
+                }
+                Ok(Err(e)) => {
+                    return Err(Violation::new(clause, format!("{}: writing to / reopening the recovered directory fails: {e}", s.desc)));
+                }
+                Err(_) => {
+                    return Err(Violation::new(clause, format!("{}: writing to / reopening the recovered directory panics", s.desc)));
+                }
+            }
+        }
+        // (b) reopen once more, same content
         if self.seen.len() % 4 == 0 {
             let again = std::panic::catch_unwind(std::panic::AssertUnwindSafe(|| faults::read_dir_state(&s.dir, self.cfg)));
             match again {
@@ -378,8 +413,13 @@ pub fn run_faulty(case: &Case, dir: PathBuf) -> Outcome {
     let mut ex = Exec::new(&case.cfg, live.clone());
     let is_power = matches!(case.fault, Fault::Power { .. });
     let is_c10 = case.prop == "C10";
+    // C09 with process-crash states: manual journal persist everywhere; only explicit persist
+    // points (persist(any mode), batch / transaction with an explicit durability, clean reopen,
+    // journal rotation) promise anything
+    let manual_crash = case.prop == "C09" && !is_power;
     let clause = match case.prop.as_str() {
         "C02" => "crash-prefix",
+        "C09" if manual_crash => "manual-persist-crash-durability",
         "C09" => "power-loss-durability",
         "C10" => "journal-eviction",
         _ => "crash",
@@ -421,7 +461,7 @@ pub fn run_faulty(case: &Case, dir: PathBuf) -> Outcome {
             let snaps: Vec<Snap> = std::mem::take(&mut mon.lock().unwrap().snaps);
             let mut sc = SnapCheck { cfg: &case.cfg, stats: &mut chk_stats, seen: std::mem::take(&mut seen) };
             for s in &snaps {
-                let (lo, hi, strict) = if is_power { (durable.min(before), after, false) } else { (before, after, true) };
+                let (lo, hi, strict) = if is_power || manual_crash { (durable.min(before), after, false) } else { (before, after, true) };
                 if let Err(mut v) = sc.check(s, &ex.history, lo, hi, strict, clause) {
                     v.op_index = Some(i);
                     v.detail = format!("during op #{i} {op:?}: {}", v.detail);
@@ -436,6 +476,29 @@ pub fn run_faulty(case: &Case, dir: PathBuf) -> Outcome {
             }
             seen = sc.seen;
             // durable lower bound (power loss)
+            if manual_crash {
+                let rotated = mon.lock().unwrap().stats.c.get("probe_journal_created").copied().unwrap_or(0) > creates_before;
+                let flushed = match op {
+                    // (a failed persist would have ended the run as unexpected-error)
+                    Op::Persist { .. } => true,
+                    Op::Batch { dur: Some(_), .. } => after > before,
+                    Op::TxEnd { slot, end: TxEnd::Commit } => {
+                        after > before
+                            && case.program[..i].iter().rev().find_map(|o| match o {
+                                Op::TxBegin { slot: s2, dur } if s2 == slot => Some(dur.is_some()),
+                                _ => None,
+                            }) == Some(true)
+                    }
+                    Op::Reopen => true,
+                    _ => false,
+                };
+                if flushed {
+                    durable = after;
+                    chk_stats.inc("manual_persist_points");
+                } else if rotated {
+                    durable = durable.max(before);
+                }
+            }
             if is_power {
                 let rotated = mon.lock().unwrap().stats.c.get("probe_journal_created").copied().unwrap_or(0) > creates_before;
                 let synced = match op {
@@ -506,7 +569,17 @@ pub fn run_faulty(case: &Case, dir: PathBuf) -> Outcome {
         }
     }
     // final state: a crash after the last op
-    if violation.is_none() && !is_power {
+    if violation.is_none() && manual_crash {
+        let d = scratch.join("final");
+        if crate::fsutil::copy_tree(&live, &d).is_ok() {
+            let s = Snap { dir: d, call: u32::MAX, kind: "crash".into(), desc: "after the last op".into(), torn: None };
+            let n = ex.acked();
+            let mut sc = SnapCheck { cfg: &case.cfg, stats: &mut chk_stats, seen: std::mem::take(&mut seen) };
+            if let Err(v) = sc.check(&s, &ex.history, durable.min(n), n, false, clause) {
+                violation = Some(v);
+            }
+        }
+    } else if violation.is_none() && !is_power {
         let d = scratch.join("final");
         if crate::fsutil::copy_tree(&live, &d).is_ok() {
             let s = Snap { dir: d, call: u32::MAX, kind: "crash".into(), desc: "after the last op".into(), torn: None };
